@@ -20,6 +20,7 @@ import asyncio
 import contextlib
 import copy
 import hashlib
+import json
 import logging
 import os
 import random as _random
@@ -70,6 +71,10 @@ def start_scripts():
                 ('new_update', 'u1', 't1', 2, 1), ('add_groups', 'u1', 1, [G(1, parent_abs=0)]),
                 ('add_jobs', 'u1', 1, [J(1, group=1), J(2, group=1)]), ('commit_tail', 'u1', 1)] + _run(1, 'a1', 'i1') + _run(2, 'a2', 'i2')
     return {
+        # C09 family: no batch yet / a batch without any update / a batch with one committed update
+        'empty': [],
+        'batch_only': [('new_batch', 'u1', 't0', 0, 0)],
+        'batch+u1_committed': single,
         # one running job, update 2 fully submitted but not committed
         'single+u2_indep': single + [('new_update', 'u1', 't2', 1, 0), ('add_jobs', 'u1', 2, [J(1, abs_group=0)])],
         'single+u2_child': single + [('new_update', 'u1', 't2', 1, 0), ('add_jobs', 'u1', 2, [J(1, abs_parents=[1], abs_group=0)])],
@@ -133,6 +138,35 @@ PAIRS = [
      [BUNCH_G2, ('cancel', 2)]),
     ('create_jobs(bunch in g2, g1)||cancel_g1', ['nested_running+u2_open'],
      [BUNCH_G2, ('cancel', 1)]),
+]
+
+# C09 (submission is idempotent under client retries): the same request delivered twice CONCURRENTLY.  The token lookup of
+# _create_batch / _create_batch_update is a locking read that matches no row: both sessions lock the same gap, both
+# INSERTs wait on the other's gap lock, one is the deadlock victim, the @transaction wrapper retries it and it then finds
+# the other's row (see txmc.gap_lock).
+C09_PAIRS = [
+    ('create||create(same token)', ['empty', 'batch_only'],
+     [('create', 'u1', 'tk', 1, 0), ('create', 'u1', 'tk', 1, 0)]),
+    ('create||create(same token, nothing to reserve)', ['empty'],
+     [('create', 'u1', 'tk', 0, 0), ('create', 'u1', 'tk', 0, 0)]),
+    ('create||create(different tokens)', ['empty'],
+     [('create', 'u1', 'tk', 1, 0), ('create', 'u1', 'tl', 1, 0)]),
+    ('create||create(same token, different users)', ['empty'],
+     [('create', 'u1', 'tk', 1, 0), ('create', 'u2', 'tk', 1, 0)]),
+    ('new_update||new_update(same token)', ['batch_only', 'batch+u1_committed'],
+     [('new_update', 'u1', 'tu', 1, 0), ('new_update', 'u1', 'tu', 1, 0)]),
+    ('new_update||new_update(different tokens)', ['batch_only'],
+     [('new_update', 'u1', 'tu', 1, 0), ('new_update', 'u1', 'tv', 2, 1)]),
+    ('create_fast||create_fast(same token)', ['empty'],
+     [('create_fast', 'u1', 'tk', 1, 0), ('create_fast', 'u1', 'tk', 1, 0)]),
+    ('create||create_fast(same token)', ['empty'],
+     [('create', 'u1', 'tk', 1, 0), ('create_fast', 'u1', 'tk', 1, 0)]),
+]
+C09_QUICK = [   # ~1400 executions
+    ('create||create(same token, nothing to reserve)', 'empty'),
+    ('create||create(same token)', 'empty'),
+    ('new_update||new_update(same token)', 'batch_only'),
+    ('new_update||new_update(same token)', 'batch+u1_committed'),
 ]
 
 # triples (thorough tier): (name, [start states], operations, deviation bound | None = every schedule)
@@ -208,6 +242,17 @@ def op_factory(w, label):
     if kind == 'schedule':
         _, j, att, inst = label
         return lambda: w.gdb.execute_and_fetchone('CALL schedule_job(%s, %s, %s, %s);', (BID, j, att, inst))
+    if kind in ('create', 'create_fast'):   # the real handlers (auth decorators stripped), a fresh request per call
+        _, u, tok, nj, ng = label
+        spec = {'billing_project': 'bp', 'n_jobs': nj, 'n_job_groups': ng, 'token': tok}
+        if kind == 'create':
+            return lambda: ops._unwrap(fe.create_batch)(ops.mkreq(w, 'POST', '/api/v1alpha/batches/create', body=spec), ops.user(u))
+        body = {'batch': spec, 'bunch': [ops.job_spec(i + 1, abs_group=0) for i in range(nj)],
+                'job_groups': [{'job_group_id': i + 1, 'absolute_parent_id': 0} for i in range(ng)]}
+        return lambda: ops._unwrap(fe.create_batch_fast)(ops.mkreq(w, 'POST', '/api/v1alpha/batches/create-fast', body=body), ops.user(u))
+    if kind == 'new_update':
+        _, u, tok, nj, ng = label
+        return lambda: fe._create_batch_update(BID, tok, nj, ng, u, w.gdb)
     if kind == 'add_jobs':
         _, u, upd, bunch = label
         specs = BUNCH_SPECS[bunch]()
@@ -223,7 +268,15 @@ def _summ(r):
         return tuple(sorted((k, v) for k, v in r.items() if k in ('rc', 'old_state', 'cur_job_state', 'delta_cores_mcpu', 'message')))
     st = getattr(r, 'status', None)
     if st is not None:
+        try:
+            body = json.loads(r.body) if getattr(r, 'body', None) else None
+        except Exception:  # noqa: BLE001
+            body = None
+        if isinstance(body, dict) and 'id' in body:
+            return ('http', st, ('id', body['id']), ('update_id', body.get('update_id')), ('start_job_id', body.get('start_job_id')))
         return ('http', st)
+    if isinstance(r, tuple):
+        return ('tuple',) + tuple(r)
     return type(r).__name__
 
 
@@ -321,7 +374,38 @@ class Runner:
         self.first_trace = None
         self._check_start_state()
 
-    def _state_violations(self):
+    def _c09_violations(self, res):
+        """One batches row per (user, batch token), one batch_updates row per (batch, update token), and every request that
+        was answered 2xx names that single row."""
+        T = self.w.table
+        out = []
+        by_tok: Dict[tuple, list] = {}
+        for r in T('batches'):
+            by_tok.setdefault((r['user'], r['token']), []).append(r['id'])
+        for (u, tok), ids in sorted(by_tok.items()):
+            if len(ids) > 1:
+                out.append(('duplicate-batch-for-one-token', f'user {u}, batch token {tok!r}: batches {sorted(ids)}'))
+        upd: Dict[tuple, list] = {}
+        for r in T('batch_updates'):
+            upd.setdefault((r['batch_id'], r['token']), []).append(r['update_id'])
+        for (b, tok), ids in sorted(upd.items()):
+            if len(ids) > 1:
+                out.append(('duplicate-update-for-one-token', f'batch {b}, update token {tok!r}: updates {sorted(ids)}'))
+        for label, r in zip(self.labels, res or ()):
+            if r[0] != 'ok' or not r[1]:
+                continue
+            if label[0] in ('create', 'create_fast') and r[1][0] == 'http' and 200 <= r[1][1] < 300 and len(r[1]) > 2:
+                ids = by_tok.get((label[1], label[2]), [])
+                got = dict(r[1][2:]).get('id')
+                if got not in ids:
+                    out.append(('response-names-a-batch-that-does-not-hold-the-token', f'{label} answered id {got}; batches with that token: {ids}'))
+            if label[0] == 'new_update' and r[1][0] == 'tuple':
+                ids = upd.get((BID, label[2]), [])
+                if r[1][1] not in ids:
+                    out.append(('response-names-an-update-that-does-not-hold-the-token', f'{label} answered update {r[1][1]}; updates with that token: {ids}'))
+        return out
+
+    def _state_violations(self, res=None):
         from vf import batchfamily as bf
 
         v = bf.View(self.w)
@@ -332,6 +416,8 @@ class Runner:
             sv += bf.check_c06(self.w, v)
         if 'C41' in self.monitors:
             sv += bf.check_c41_state(self.w, v)
+        if 'C09' in self.monitors:
+            sv += self._c09_violations(res)
         return sv
 
     def _sequential(self, sig, msg, order):
@@ -376,7 +462,7 @@ class Runner:
                 gaps = list(_lx.GAPS)
                 del _lx.GAPS[:]
                 raise RuntimeError(f'minisql harness gap during {self.name}: {gaps[:3]}')
-        return canon(w), tuple(res), tm.stats, tm.trace, self._state_violations(), errs
+        return canon(w), tuple(res), tm.stats, tm.trace, self._state_violations(res), errs
 
     def serial_refs(self):
         if not self.serial:
@@ -564,6 +650,11 @@ def _by_match(outcomes):
 def items_for(tier, monitors):
     """Work items (pair, start state, operations, snapshot_reads, monitors, deviation bound, execution cap).
     Items with snapshot_reads=True are INFORMATIONAL (see extra_phase)."""
+    if 'C09' in monitors:
+        cat = {n: (starts, labels) for n, starts, labels in C09_PAIRS}
+        if tier == 'quick':
+            return [(n, s, cat[n][1], False, monitors, None, 6000) for n, s in C09_QUICK]
+        return [(n, s, labels, False, monitors, None, 60000) for n, starts, labels in C09_PAIRS for s in starts]
     cat = {n: (starts, labels) for n, starts, labels in PAIRS}
     items = []
     if tier == 'quick':
@@ -583,10 +674,15 @@ def items_for(tier, monitors):
 
 
 ASSUME = [
-    'statement-level interleavings: InnoDB-like RECORD locks only (S/X per primary key); gap / next-key / insert-intention locks '
-    'and phantom protection are NOT modelled (all operations of a pair use token shard 0 and every counter row they touch exists in '
-    'the start state, so no explored interleaving depends on a phantom row); a lock request is granted when compatible with the '
-    'locks granted to other sessions (no FIFO fairness among waiters)',
+    'statement-level interleavings: InnoDB-like record locks (S/X per primary key) plus a REDUCED gap-lock model: the `column = '
+    'constant` conjuncts of a locking SELECT (own clause or source of INSERT..SELECT) form a gap lock on that table; gap locks never '
+    'conflict with each other (two sessions may lock the same empty gap), an INSERT of a new row satisfying all conjuncts of another '
+    'session\'s gap lock waits (insert-intention) - the gap/insert deadlock of two get-or-create transactions is therefore '
+    'reproduced, with the real @transaction / retry_transient_mysql_errors retry of the victim. Rows matching only the equality part '
+    'of a WHERE are blocked too (over-blocking: removes schedules / adds retry paths, never an unreachable state). Range and '
+    'next-key locks of UPDATE / DELETE scans are NOT modelled (the lifecycle pairs use token shard 0 and every shared counter row '
+    'exists in the start state); a lock request is granted when compatible with the locks granted to other sessions (no FIFO '
+    'fairness among waiters)',
     'locking reads and DML lock the rows of their final (ON/WHERE-filtered) bindings (InnoDB locks every index record its scan touches); '
     'UPDATE takes X on the rows it updates and S on the rows of the other joined tables; INSERT..SELECT and subqueries / derived tables '
     'inside DML take S on their source rows unless they carry their own clause; a duplicate-key check takes S (X with ON DUPLICATE KEY '
@@ -728,12 +824,14 @@ def merge_into(result, phase):
     return result
 
 
-def replay(obj):
+def replay(obj, monitors=None):
     """Re-run ONE recorded schedule without the explorer."""
     from vf import boot
 
     boot.install()
-    r = Runner(obj['txpair'], obj['start'], [tuple(l) for l in obj['ops']], obj.get('snapshot_reads', False))
+    if monitors is None:
+        monitors = ('C09',) if any(l[0] in ('create', 'create_fast', 'new_update') for l in obj['ops']) else ('C01', 'C06', 'C41')
+    r = Runner(obj['txpair'], obj['start'], [tuple(l) for l in obj['ops']], obj.get('snapshot_reads', False), monitors)
     if 'serial_order' in obj:   # a sequential defect: the start state itself ([]) or the operations one after the other
         if obj['serial_order']:
             r.serial_refs()
